@@ -6,7 +6,6 @@ import (
 	"strings"
 
 	"verif/corpus"
-	"verif/symgo"
 )
 
 func onlyItem(name string) bool {
@@ -65,51 +64,60 @@ func (c *Ctx) HandleGenCex(o *Outcome, it *GenItem, r *Result) {
 // C01: the generated parser accepts exactly L(G).
 func C01(c *Ctx) int {
 	o := &Outcome{}
-	var gs []*corpus.Grammar
-	for _, g := range corpus.ParserLanguage() {
-		if onlyItem(g.Name) {
-			gs = append(gs, g)
-		}
-	}
-	selfTestGrammars(o, gs, 5)
-	items, err := c.Generate(gs, nil)
-	if err != nil {
-		fmt.Println("generate:", err)
-		return 2
-	}
-	prog, err := c.LoadGen()
-	if err != nil {
-		fmt.Println("load:", err)
-		return 2
-	}
-	maxN := 5
-	if c.Thorough() {
-		maxN = 8
-	}
-	skipped := 0
-	for _, it := range items {
-		if !it.ExitOK || !it.Files {
-			skipped++
-			continue
-		}
-		for n := 0; n <= maxN; n++ {
-			h := Harness{Name: fmt.Sprintf("parse.Member[%s,n=%d]", it.Name, n), Func: "H_Member",
-				Params: map[string]int{"n": n}, Bounds: fmt.Sprintf("all token sequences of length %d over the item's terminals", n)}
-			r, err := c.RunGenHarness(prog, it, h)
-			if err != nil {
-				o.Broken = append(o.Broken, err.Error())
-				break
-			}
-			o.Add(r)
-			c.HandleGenCex(o, it, r)
-			if len(r.Rep.Cex) > 0 {
-				break
-			}
-		}
-	}
-	o.Extra = map[string]any{"corpus_items": len(items), "items_skipped": skipped}
-	o.Assumptions = []string{"the grammar dimension is an enumerated corpus, not solver-decided", "token kinds range over the item's terminals (EOF and ERROR excluded)"}
+	c.runParseCheck(o, parseCheck{Func: "H_Member", Label: "parse.Member", Grammars: corpus.ParserLanguage(),
+		MaxNQuick: 5, MaxNThor: 8, SelfTestN: 5, ReachAny: []string{"accepted", "rejected"}})
+	o.Assumptions = []string{"the grammar dimension is an enumerated corpus, not solver-decided",
+		"token kinds range over the item's terminals (EOF and ERROR excluded)",
+		"reference: CYK over my own CNF conversion of my own sugar expansion, validated against a direct derivation search on every string up to length 5"}
 	o.Outside = []string{"grammars outside the corpus", "inputs longer than the bound"}
-	_ = symgo.Sat
+	return c.Finish(o)
+}
+
+// C03: actions are the unique bottom-up derivation; sugar values.
+func C03(c *Ctx) int {
+	o := &Outcome{}
+	c.runParseCheck(o, parseCheck{Func: "H_Tree", Label: "parse.Tree", Grammars: corpus.ParserLanguage(),
+		MaxNQuick: 5, MaxNThor: 8, ReachAny: []string{"accepted"}})
+	o.Assumptions = []string{"corpus grammars; Discard() results are symbolic per token and per node",
+		"the derivation-tree checker (mine) accepts exactly derivation trees whose leaves are the input in order; uniqueness of the tree follows from lox accepting the grammar (C04) "}
+	o.Outside = []string{"grammars outside the corpus", "inputs longer than the bound"}
+	return c.Finish(o)
+}
+
+// C16: _onBounds.
+func C16(c *Ctx) int {
+	o := &Outcome{}
+	var gs []*corpus.Grammar
+	for _, g := range corpus.WithBounds(corpus.ParserLanguage()) {
+		if g.Name == "P-filter+B" || g.Name == "P-filter-tok+B" {
+			continue // the span of dropped *! elements is not pinned down by the documentation
+		}
+		gs = append(gs, g)
+	}
+	c.runParseCheck(o, parseCheck{Func: "H_Tree", Label: "parse.Bounds", Grammars: gs,
+		MaxNQuick: 5, MaxNThor: 8, ReachAny: []string{"accepted"}})
+	o.Assumptions = []string{"expected _onBounds calls are derived from the checked derivation tree: one per non-empty user node right after its action, one per helper reduction (list so far, optional value)",
+		"'changes nothing else': the +B twin passes the same derivation-tree check as the plain item of C03, and the tree is unique"}
+	o.Outside = []string{"x*! items (span of dropped elements undocumented)", "grammars outside the corpus"}
+	return c.Finish(o)
+}
+
+// C05: @left/@right(n).
+func C05(c *Ctx) int {
+	o := &Outcome{}
+	c.runParseCheck(o, parseCheck{Func: "H_Prec", Label: "parse.Prec", Grammars: corpus.ParserPrecedence(),
+		MaxNQuick: 5, MaxNThor: 9, ReachAny: []string{"accepted", "two-operators"}})
+	o.Assumptions = []string{"operator tables are an enumerated corpus; the reference is a precedence-climbing parser of mine"}
+	o.Outside = []string{"mixed associativity at one level (undocumented)", "inputs longer than the bound"}
+	return c.Finish(o)
+}
+
+// C09: syntax errors.
+func C09(c *Ctx) int {
+	o := &Outcome{}
+	c.runParseCheck(o, parseCheck{Func: "H_Recover", Label: "parse.Recover", Grammars: corpus.ParserRecovery(),
+		MaxNQuick: 4, MaxNThor: 6, MaxSteps: 3_000_000, UnwindCex: true, ReachAny: []string{"clean", "error", "error-delivered"}})
+	o.Assumptions = []string{"step budget 3,000,000 SSA instructions per path (a parse of 6 tokens takes < 20,000); an overrun is replayed natively with a 20 s limit and reported only if the native run does not finish either"}
+	o.Outside = []string{"grammars outside the corpus", "long inputs with bursts of errors"}
 	return c.Finish(o)
 }
